@@ -2,6 +2,6 @@ SPECIFICATION RSpec
 CONSTANTS
   Modes = {"ltr"}
   Fuel = 3000
-INVARIANTS ReplEqBatch SessionPrefix FormOutputsAlign DiagCount WellOrdered CallsDefined RNoStuck Bounded
+INVARIANTS ReplEqBatch SessionPrefix FormOutputsAlign SessionStateEqBatch DiagCount WellOrdered CallsDefined RNoStuck Bounded
 PROPERTIES RejectKeepsSession AcceptIsSilent
 CHECK_DEADLOCK FALSE
